@@ -1,6 +1,6 @@
 From Coq Require Import ZArith List Bool Reals Lra.
 From Flocq Require Import Core BinarySingleNaN.
-Require Import GV.FloatBase GV.FloatLemmas GV.AngleM GV.AngleProofs GV.GeonumM GV.GeonumProofs GV.TraitsM GV.NewProofs GV.CtorProofs GV.ClosureProofs GV.SumUpper GV.PiBounds GV.TrigProofs GV.DotValue GV.DirProofs GV.CommProofs.
+Require Import GV.FloatBase GV.FloatLemmas GV.AngleM GV.AngleProofs GV.GeonumM GV.GeonumProofs GV.TraitsM GV.NewProofs GV.CtorProofs GV.ClosureProofs GV.SumUpper GV.PiBounds GV.TrigProofs GV.DotValue GV.DirProofs GV.CommProofs GV.DistValue GV.SumDir GV.GradeProofs.
 Open Scope R_scope.
 Require Import GV.Properties.C14.
 Check C14_same : forall (L : libm) a b, aeqb (ang a) (ang b) = true ->
@@ -57,3 +57,33 @@ Check C14_general_commutes : forall (L : libm) a b, aeqb (ang a) (ang b) = false
   aeqb (add_vv (ang a) (new one one)) (ang b) || aeqb (add_vv (ang b) (new one one)) (ang a) = false ->
   ang (gadd_vv L a b) = ang (gadd_vv L b a).
 Print Assumptions C14_general_commutes.
+Check C14_grade_of_signs : forall a, Canon a ->
+  (0 < cos (dirR a) -> 0 < sin (dirR a) -> grade a = 0%Z) /\
+  (cos (dirR a) < 0 -> 0 < sin (dirR a) -> grade a = 1%Z) /\
+  (cos (dirR a) < 0 -> sin (dirR a) < 0 -> grade a = 2%Z) /\
+  (0 < cos (dirR a) -> sin (dirR a) < 0 -> grade a = 3%Z).
+Print Assumptions C14_grade_of_signs.
+Check C14_grade_from_direction : forall (L : libm) (u u2 : R) a b, cos_acc L u -> sin_acc L u -> atan2_acc L u2 -> u <= / 1000 ->
+  canonp (rem (ang a)) -> canonp (rem (ang b)) ->
+  aeqb (ang a) (ang b) = false ->
+  aeqb (add_vv (ang a) (new one one)) (ang b) || aeqb (add_vv (ang b) (new one one)) (ang a) = false ->
+  (0 <= blade (ang a) + blade (ang b) < 2 ^ 40)%Z ->
+  fin (gadd_rad L a b) ->
+  fin (fadd (fmul (mag a) (sinF L (grade_angle (ang a)))) (fmul (mag b) (sinF L (grade_angle (ang b))))) ->
+  fin (fadd (fmul (mag a) (cosF L (grade_angle (ang a)))) (fmul (mag b) (cosF L (grade_angle (ang b))))) ->
+  fin (total_angle (sum_adjusted L a b) PI) -> Rabs (R_ (total_angle (sum_adjusted L a b) PI)) <= bpow radix2 42 ->
+  let r := gadd_vv L a b in
+  let Vx := R_ (mag a) * cos (dir (ang a)) + R_ (mag b) * cos (dir (ang b)) in
+  let Vy := R_ (mag a) * sin (dir (ang a)) + R_ (mag b) * sin (dir (ang b)) in
+  let M := Rabs (R_ (mag a)) + Rabs (R_ (mag b)) in
+  let E := M * (u + 3 / 1000000000000000) + 4 * bpow radix2 (-1075) in
+  let S := R_ (mag a) * R_ (mag a) + R_ (mag b) * R_ (mag b) in
+  let Bnd := S * (u + 1 / 100000000000000) + 10 * bpow radix2 (-1075) in
+  let tolN := R_ eps10 + 3 / 100000000000000 + IZR (blade (ang a) + blade (ang b)) * (4 / 1000000000000000) in
+  let T := sqrt Bnd * (1 + / 9007199254740992) + / 9007199254740992 * sqrt (Vx * Vx + Vy * Vy) + bpow radix2 (-1075)
+           + 3 * E + (M + 2 * E) * (u2 + tolN) in
+  (T < Vx -> T < Vy -> grade (ang r) = 0%Z) /\
+  (Vx < - T -> T < Vy -> grade (ang r) = 1%Z) /\
+  (Vx < - T -> Vy < - T -> grade (ang r) = 2%Z) /\
+  (T < Vx -> Vy < - T -> grade (ang r) = 3%Z).
+Print Assumptions C14_grade_from_direction.
